@@ -42,14 +42,14 @@ RULE = (
 ASSUMPTIONS = [
     "rotation convention pinned from the property text and the theta=0 case: offsets (d_row, d_col) map to (cos*d_row - sin*d_col, sin*d_row + cos*d_col); theta = scan_direction_degrees",
     "the canvas shape is read from the object (DriftCorrection.shape); the property fixes the placement relative to the canvas centre, not the canvas size",
-    "coordinates are float64: bound 1e-9 px (measured <= 1e-14); weight maps are accumulated in float32: sum bound 1e-4 relative (measured <= 1e-6), centroid bound 1e-3 px, cross moment bound 1e-3*(V_r+V_c)+1e-3 px^2",
+    "coordinates are float64: bound 1e-9 px (measured <= 1e-14); weight maps are accumulated in float32: sum bound 1e-4 relative (measured <= 1e-6), centroid bound 1e-5 px (measured 2e-8), cross moment bound 1e-5*(V_r+V_c)+1e-5 px^2 (measured 3e-7)",
     "weight centroid / cross moment are judged only when every pixel lands at least int(4*sigma+0.5)+1 px inside the canvas (no wrap-around, no boundary reflection of the Gaussian filter)",
-    "fixed point: warped images are float32, so the parabolic peak refinement sees rounding noise; bound 3e-3 px (measured <= 3e-5 px for images whose contrast is comparable to their mean). "
+    "fixed point: warped images are float32, so the parabolic peak refinement sees rounding noise; bound 1e-2 px (measured <= 5e-5 px for images whose contrast is comparable to their mean; the C13 defect moves the knots by 0.1..0.7 px). "
     "Images with |mean| >> std are not generated: their float32 auto-correlation is flat to within rounding, which is a conditioning limit of float32, not the geometry claim",
     "the fixed-point claim depends on the numpy cross_correlation_shift defect of C13 (fixes/C13-1): it is judged on a tree with that repair",
 ]
 BUDGET = {"quick": {"soft_s": 100}, "thorough": {"soft_s": 540}}
-MIN_EVALUATIONS = {"quick": 300, "thorough": 6000}
+MIN_EVALUATIONS = {"quick": 500, "thorough": 6000}
 REQUIRED_COUNTERS = [
     "eval:coords_not_closed_form",
     "eval:initial_knots_not_closed_form",
@@ -66,17 +66,17 @@ FAMILIES = ["noise01", "noise0", "blobs", "bandlimited"]
 
 TOL_COORD = 1e-9
 TOL_WSUM = 1e-4
-TOL_CENTROID = 1e-3
-TOL_FIXED = 3e-3
+TOL_CENTROID = 1e-5
+TOL_FIXED = 1e-2
 
 
 def plan(tier, seed):
     specs = []
-    reps = 1 if tier == "quick" else 30
+    reps = 2 if tier == "quick" else 30
     for rep in range(reps):
         for shp, ang, pad in itertools.product(SHAPES, ANGLES, PADS):
             specs.append({"kind": "geom", "shape": shp, "angle": ang, "pad": pad})
-    reps = 1 if tier == "quick" else 20
+    reps = 3 if tier == "quick" else 30
     k = 0
     for rep in range(reps):
         for up, K, ang in itertools.product(UPS, [1, 2, 3, 4], ANGLES[:5]):
@@ -210,7 +210,7 @@ def _weights_checks(ctx, w, shape, canvas, angle, sigma, xa_e, ya_e, common, wha
     th = np.deg2rad(angle)
     Vr, Vc = (R * R - 1) / 12.0, (C * C - 1) / 12.0
     exp_cross = (Vr - Vc) * np.sin(th) * np.cos(th)
-    ctx.close(cross - exp_cross, 1e-3 * (Vr + Vc) + 1e-3, "weight_cross_moment", lambda: "%s: cov(row,col) of the weight map %.6f expected %.6f (shape %s angle %.3f)" % (what, cross, exp_cross, shape, angle), stage=what, **common)
+    ctx.close(cross - exp_cross, 1e-5 * (Vr + Vc) + 1e-5, "weight_cross_moment", lambda: "%s: cov(row,col) of the weight map %.6f expected %.6f (shape %s angle %.3f)" % (what, cross, exp_cross, shape, angle), stage=what, **common)
 
 
 def _run_geom(spec, idx, ctx):
@@ -274,7 +274,7 @@ def _run_geom(spec, idx, ctx):
             wcommon = dict(common)
             _weights_checks(ctx, dc.weights_warped.array[i], shape, canvas, angles[i], sigma, xa_e, ya_e, wcommon, "preprocess")
             if K == 1 or i == 0:
-                s2 = float(rng.uniform(0.3, 1.5))
+                s2 = float(rng.uniform(0.3, 0.7))
                 up2 = int(rng.choice([1, 2, 3]))
                 _, w2 = dc.interpolator[i].warp_image(dc.images[i].array, dc.knots[i], kde_sigma=s2, upsample_factor=up2)
                 _weights_checks(ctx, w2, shape, canvas, angles[i], s2, xa_e, ya_e, wcommon, "warp_image_upsampled", scale=float(up2))
@@ -332,6 +332,6 @@ def run_case(spec, idx, ctx):
 def summarize(all_cases, counters, extras):
     return {
         "tolerances": {"coordinates_px": TOL_COORD, "weight_sum_relative": TOL_WSUM, "weight_centroid_px": TOL_CENTROID, "fixed_point_px": TOL_FIXED},
-        "measured_noise_floor": {"coordinates_px": 1e-14, "weight_sum_relative": 1e-6, "fixed_point_px": 3e-5},
+        "measured_noise_floor": {"coordinates_px": 1e-14, "weight_sum_relative": 1e-6, "fixed_point_px": 5e-5},
         "depends_on": "fixes/C13-1 (numpy cross_correlation_shift upsampling) for the fixed-point sub-claim at upsample_factor > 1",
     }
